@@ -8,10 +8,22 @@ def getRat (toks : List String) (k : String) : Option Rat := (kv toks k).bind pa
 def getNat (toks : List String) (k : String) : Option Nat := ((kv toks k).bind parseInt?).map Int.toNat
 def getIdx (toks : List String) : List Nat := (((kv toks "idx").bind parseIntList?).getD []).map Int.toNat
 
-def replyDesign (d : Design Rat) (idx : List Nat) : String :=
+def replyDesign (d x : Design Rat) (idx : List Nat) : String :=
   let w := d.wave
   let smp := idx.map fun i => w.getD i 0
-  s!"ok r={d.ramppts} nflat={d.nflat} len={w.length} scale={fmtRat d.scale} sum={fmtRat w.sum} flatsum={fmtRat d.flat.sum} | {fmtRatList smp}"
+  s!"ok r={d.ramppts} nflat={d.nflat} len={w.length} scale={fmtRat d.scale} sum={fmtRat w.sum} flatsum={fmtRat d.flat.sum} xr={x.ramppts} xnflat={x.nflat} xlen={x.wave.length} | {fmtRatList smp}"
+
+/-- per-site overrides: comma separated, `x` = none -/
+def parseOptRats (s : Option String) : Option (List (Option Rat)) :=
+  match s with
+  | none => some []
+  | some s => (s.splitOn ",").mapM fun t => if t == "x" then some none else (parseRat? t).map some
+
+def parseOptBools (s : Option String) : Option (List (Option Bool)) :=
+  match s with
+  | none => some []
+  | some s => (s.splitOn ",").mapM fun t =>
+      if t == "x" then some none else if t == "1" then some (some true) else if t == "0" then some (some false) else none
 
 /-- blips of one axis: `;`-separated, each `none` or an integer list -/
 def parseBlips (s : String) : Option (List (Option (List Rat))) :=
@@ -26,17 +38,41 @@ def handle (toks : List String) : String :=
     | some area, some gmax, some dgdt, some dt, some hc =>
       if !(0 < area && 0 < gmax && 0 < dgdt && 0 < dt) then "err domain" else
       if !trapHintOk area dgdt dt hc then "err bad-hint" else
-      replyDesign (trapGrad (ratOps hc 0) area gmax dgdt dt) (getIdx toks)
+      -- `x…` fields: the exact design (`trapGradRat`, the object of `trap_meets_limits_rat`); main fields: the design
+      -- along the float code's path (per-site float arguments `cf`, forced comparisons `lf`, float hint `hcf`)
+      match parseOptRats (kv toks "cf"), parseOptBools (kv toks "lf") with
+      | some cf, some lf =>
+        replyDesign (trapGrad (ratOps ((getNat toks "hcf").getD hc) 0 cf lf) area gmax dgdt dt)
+          (trapGradRat hc area gmax dgdt dt) (getIdx toks)
+      | _, _ => "err bad-op"
     | _, _, _, _, _ => "err bad-op"
   | some "mintrap" =>
     match getRat toks "area", getRat toks "gmax", getRat toks "dgdt", getRat toks "dt", getNat toks "hf" with
     | some area, some gmax, some dgdt, some dt, some hf =>
       if !(0 < area && 0 < gmax && 0 < dgdt && 0 < dt) then "err domain" else
       if !minHintOk area dgdt dt hf then "err bad-hint" else
-      match minTrapGrad (ratOps 0 hf) area gmax dgdt dt with
-      | some d => replyDesign d (getIdx toks)
-      | none => "err value"
+      match parseOptRats (kv toks "cf"), parseOptBools (kv toks "lf") with
+      | some cf, some lf =>
+        match minTrapGrad (ratOps 0 ((getNat toks "hff").getD hf) cf lf) area gmax dgdt dt, minTrapGradRat hf area gmax dgdt dt with
+        | some d, some x => replyDesign d x (getIdx toks)
+        | some d, none => replyDesign d ⟨0, 0, 0⟩ (getIdx toks)
+        | none, _ => "err value"
+      | _, _ => "err bad-op"
     | _, _, _, _, _ => "err bad-op"
+  | some "spokes" =>
+    let waves (k : String) : Option (List (List Rat)) :=
+      (kv toks k).bind fun s => if s == "-" then some [] else (s.splitOn ";").mapM parseRatList?
+    match getNat toks "n", (kv toks "kx").bind parseRatList?, (kv toks "ky").bind parseRatList?, getRat toks "tbw",
+        getRat toks "slthick", getRat toks "gts" with
+    | some n, some kx, some ky, some tbw, some sl, some gts =>
+      match (kv toks "mk").bind parseRatList?, waves "mw", (kv toks "tk").bind parseRatList?, waves "tw" with
+      | some mk, some mw, some tk, some tw =>
+        if kx.length != n || ky.length != n || mk.length != mw.length || tk.length != tw.length then "err bad-op" else
+        match spokesGradRat mk mw tk tw kx ky n tbw sl gts with
+        | some (gx, gy, gz) => s!"ok {fmtRatList gx} | {fmtRatList gy} | {fmtRatList gz}"
+        | none => "err value"
+      | _, _, _, _ => "err bad-op"
+    | _, _, _, _, _, _ => "err bad-op"
   | some "spokesaxis" =>
     match getNat toks "nsub", getNat toks "nref", (kv toks "blips").bind parseBlips with
     | some nsub, some nref, some bl => s!"ok {fmtRatList (spokesAxis nsub nref bl)}"
